@@ -511,7 +511,7 @@ func judgeConn(s connScn, o *connOutcome) (sig, msg string) {
 			if nclose > 1 {
 				return "fd-closed-twice", fmt.Sprintf("descriptor closed %d times | events: %s", nclose, logs)
 			}
-			if s.Closers == 0 && s.Sweeper == 0 && !o.peerClosed && !hasHandlers && nclose != 0 && w.first("user-detach") >= 0 && w.first("user-detach") < w.first("quiet") {
+			if s.Closers == 0 && s.Sweeper == 0 && !s.PrepareClose && !o.peerClosed && !hasHandlers && nclose != 0 && w.first("user-detach") >= 0 && w.first("user-detach") < w.first("quiet") {
 				return "detached-fd-closed", "a detached connection's descriptor was closed | events: " + logs
 			}
 		} else if nclose != 1 {
